@@ -564,6 +564,13 @@ try:
     res = 'RESULT returned finite=%s' % ok
 except BaseException as e:
     res = 'RESULT raised %s: %s' % (type(e).__name__, str(e).replace('\n', ' ')[-200:])
+# segments of THIS run still present while the calling process is alive (the property: released when the call returns or raises)
+try:
+    ids = set(open(os.environ.get('AEGEAN_VERIF_IDFILE', '')).read().split())
+except Exception:
+    ids = set()
+left = sorted(f for f in os.listdir('/dev/shm') if f.startswith(('ibkg_', 'irms_')) and f.split('_', 1)[1] in ids)
+res += ' STILL-THERE=%s' % ','.join(left)
 open(os.path.join(os.path.dirname(sys.argv[1]), 'result.txt'), 'w').write(res)
 print(res)
 '''
@@ -610,6 +617,10 @@ def run_bane(cfg, schedule=None, timeout=40):
         leaked = shm_segments() - before
         if ids is not None:
             leaked = set(f for f in leaked if f.split('_', 1)[1] in ids)      # only segments created by this run
+        if res and 'STILL-THERE=' in res[-1]:
+            inproc = [x for x in res[-1].split('STILL-THERE=')[1].split(',') if x]
+            leaked |= set('/dev/shm/' + x for x in inproc)                     # seen by the caller itself right after the call
+            res[-1] = res[-1].split(' STILL-THERE=')[0]
         for f in leaked:
             try:
                 os.unlink(f)
